@@ -21,7 +21,7 @@ ASSUMPTIONS = ['preprocess_spectra derives its own output grid only from a share
                'the harness installs an SPPIXMASK table in the maskbits cache (the official file cannot be downloaded offline)',
                'an output wavelength within 1e-6 pixel of an input pixel is a hit on that pixel; a hit on a good pixel whose two neighbours are bad may be zero or not',
                'for stacked exposures the zero rule is applied per exposure (an output pixel may be non-zero if some exposure brackets it with two good pixels); the value rule is asserted for single spectra only',
-               'flux reproduction tolerance on noise-free smooth families: 2e-3 of the amplitude (B-spline interpolation accuracy), constants 1e-8; scaling 1e-7',
+               'flux reproduction tolerance on noise-free smooth families: 2e-3 of the amplitude (B-spline interpolation accuracy), constants 1e-8; scaling 1e-7; under scaling the set of good output pixels must be identical except within 8 input pixels of a zero-weight pixel or a data end (singular fits there are settled by round-off)',
                'stacked exposures keep >= 101 good pixels each (the built-in variance smoothing assumes it)',
                "aesthetics='damp' is exercised for finiteness only when at least one good output pixel lies at index >= 1"]
 
@@ -194,9 +194,19 @@ def body(case):
             tol = 1e-8 * 8 if case['fam'] == 'const' else (2e-3 if case['fam'] == 'sinus' else 1e-4)
             if case['fam'] != 'const' and case['og'] != 'same':
                 tol = max(tol, 5e-3)       # reference itself is a linear interpolation between samples
-            dev = np.abs(nf[nz] - ref[nz])
+            tolv = np.full(len(nl), tol)
+            if case['fam'] == 'const':
+                # within 12 input pixels of a zero-weight pixel / data end the spline system is nearly singular (masked breakpoints):
+                # the spline has a nearly free oscillating component there (observed: coefficients 4.98, 5.02, 4.998, ... for constant 5, flux off by 1e-4 between
+                # pixels); that is interpolation accuracy, the same 2e-3 allowed for smooth spectra; far from gaps constants must be exact
+                l2, i2 = np.atleast_2d(ll), np.atleast_2d(iv)
+                bad_l = np.concatenate([l2[e][i2[e] <= 0] for e in range(l2.shape[0])] + [l2[:, 0], l2[:, -1]])
+                d2 = np.min(np.abs(nl[:, None] - bad_l[None, :]), axis=1)
+                tolv = np.where(d2 > 25 * abs(l2[0, 1] - l2[0, 0]), tolv, 2e-3)
+            dev = np.abs(nf - ref)
             kind = 'constant-spectrum-not-constant' if case['fam'] == 'const' else ('same-grid-not-identity' if case['og'] == 'same' else 'flux-not-reproduced')
-            check(bool(dev.max() <= tol * amp), kind, lambda: dict(maxdev=float(dev.max()), tol=tol, og=case['og'], pixel=int(np.nonzero(nz)[0][dev.argmax()])))
+            worst = int(np.nonzero(nz)[0][(dev[nz] / tolv[nz]).argmax()])
+            check(bool(np.all(dev[nz] <= tolv[nz] * amp)), kind, lambda: dict(maxdev=float(dev[worst]), tol=float(tolv[worst]), og=case['og'], pixel=worst))
     c = case['scale']
     if not with_ivar:
         # the scaling relation is about (c flux, ivar / c^2); without an inverse variance iterfit derives its weights from the
@@ -209,15 +219,38 @@ def body(case):
     with judge('scaling'):
         nf2 = np.asarray(nf2, dtype='f8')
         ni2 = np.asarray(ni2, dtype='f8')
+        lls = np.atleast_2d(ll)
+        ivs = np.atleast_2d(iv)
+        step = abs(lls[0, 1] - lls[0, 0])
+        badlam = np.concatenate([lls[e][ivs[e] <= 0] for e in range(lls.shape[0])] + [lls[:, 0], lls[:, -1]])
+        dist = np.min(np.abs(nl[:, None] - badlam[None, :]), axis=1)
         if case['fam'] not in ('noisy', 'spike'):
-            check(bool(np.array_equal(ni2 > 0, nz)), 'scaling-changes-good-pixels', lambda: dict(ndiff=int(((ni2 > 0) != nz).sum())))
+            # next to zero-weight pixels and at the data ends the normal equations are singular and WHICH breakpoints get masked is
+            # decided by round-off (observed: 5 vs 1 masked breakpoints for c = 1 vs 1000), so the good-pixel set may differ there;
+            # elsewhere it must be identical
+            stable = dist > 8 * step
+            diff = ((ni2 > 0) != nz) & stable
+            check(not diff.any(), 'scaling-changes-good-pixels', lambda: dict(pixels=np.nonzero(diff)[0].tolist()[:8]))
         both = nz & (ni2 > 0)
-        if both.any() and not damp:
-            check(bool(np.all(np.abs(nf2[both] - c * nf[both]) <= 1e-7 * abs(c) * np.abs(nf[both]).max())), 'flux-does-not-scale',
-                  lambda: dict(maxdev=float(np.abs(nf2[both] - c * nf[both]).max()), c=c))
-            if with_ivar:
-                check(bool(np.all(np.abs(ni2[both] * c ** 2 - ni[both]) <= 1e-7 * ni[both])), 'ivar-does-not-scale',
-                      lambda: dict(maxdev=float(np.abs(ni2[both] * c ** 2 - ni[both]).max()), c=c))
+        smooth_input = case['fam'] in ('const', 'poly', 'sinus')
+        if both.any() and not damp and not smooth_input:
+            note_label('flux-scaling-skipped-noisy-input')
+        if both.any() and not damp and smooth_input:
+            # the statement promises flux relations "where the input is good and smooth"; with noise, a gap next to the data end makes the
+            # spline system nearly singular and the noise is amplified (observed: flux 535 instead of 5 at pixels with ivar > 0, and a
+            # 5e-3 scale dependence) - recorded as observation O10 in DESIGN.md
+            # the fit is linear in the flux when the same breakpoints are used; next to gaps / data ends a different set of breakpoints may be
+            # masked (round-off, see above) and the two splines then agree only to interpolation accuracy.  B-splines are local, so far
+            # from such places (> 12 input pixels) exact scaling is asserted.
+            ref_amp = abs(c) * np.abs(nf[both]).max()
+            stol = np.where(dist > 25 * step, 1e-6, 2e-3)        # the free oscillating component decays away from a gap
+            dv = np.abs(nf2 - c * nf)
+            worst = int(np.nonzero(both)[0][(dv[both] / stol[both]).argmax()])
+            check(bool(np.all(dv[both] <= stol[both] * ref_amp)), 'flux-does-not-scale',
+                  lambda: dict(maxdev=float(dv[worst]), allowed=float(stol[worst] * ref_amp), c=c, pixels_from_gap=float(dist[worst] / step)))
+        if both.any() and with_ivar:
+            check(bool(np.all(np.abs(ni2[both] * c ** 2 - ni[both]) <= 1e-7 * ni[both])), 'ivar-does-not-scale',
+                  lambda: dict(maxdev=float(np.abs(ni2[both] * c ** 2 - ni[both]).max()), c=c))
     if nz.sum() >= 20:
         note_label('>=20-good-output-pixels')
     if (allow == -1).any() and nz.any():
